@@ -394,7 +394,7 @@ func (g *flowGen) importize() {
 func (g *flowGen) finish() {
 	p := g.p
 	p.NumFns = g.nfn
-	p.ConcurrentOK = true
+	p.ConcurrentOK = !p.hasKind(KF64) // (a constant fallback value carries no execution number)
 	p.GoTag = []string{"go1.21", "", "go1.20", "go1.18"}[p.nameOffset()%4]
 	p.PadLines = (p.nameOffset()/17)%4 == 0
 	p.InVarLit = !p.Generic && !p.InMethod && (p.nameOffset()/13)%6 == 0
